@@ -192,3 +192,43 @@ Definition sflags (c : scase) : list bool :=
   let mism := sc_cmp c && negb unm && negb nonfin && negb copyraised && negb stricter &&
               negb (sres_equiv c m (sc_obs c)) in
   [mism; viol; viol && negb thm; dom; thm; unm; copyraised; stricter].
+
+(* ---- deserialization with its real pre-processing (Ser/Deserialize.v, Ser/DeserEntry.v): one case =
+   Deserializer(cls).deserialize(doc) [dc_ku = None] or deserialize_structure(cls, doc) [Some true] on a
+   JSON-shaped document, with the observed outcome *)
+From TP Require Export Ser.Json Ser.Serialize Ser.Deserialize Ser.DeserEntry.
+
+Record dcase := { dc_tbl : table; dc_env : env; dc_ens : enums; dc_flags : dflags; dc_ku : option bool;
+                  dc_cls : pystr; dc_doc : pyval; dc_obs : res pyval }.
+
+Definition DFUEL : nat := 8.
+
+Definition dmodel (c : dcase) : res pyval :=
+  deserialize (tbl_match (dc_tbl c)) (dc_env c) (dc_ens c) (dc_flags c) DFUEL (dc_ku c) (dc_cls c) (dc_doc c).
+
+Definition ddeclines (c : dcase) : bool := match dmodel c with Raise x => model_exn x | _ => false end.
+
+(* hypothesis of C01_deserialize_sound *)
+Definition ddom (c : dcase) : bool :=
+  match find_class (dc_env c) (dc_cls c) with
+  | Some cd => deser_dom (tbl_match (dc_tbl c)) (dc_env c) (dc_ens c) (dc_flags c) (pred DFUEL)
+                         (adjust_keep_undefined cd (dc_ku c)) (dc_cls c) (dc_doc c)
+  | None => false
+  end.
+
+Definition dres_equiv (m o : res pyval) : bool :=
+  match m, o with
+  | Ok x, Ok y => inst_equiv x y
+  | Raise e1, Raise e2 => exn_equiv e1 e2
+  | _, _ => false
+  end.
+
+(* verdicts: model and typedpy differ; hypothesis of the theorem holds; model declines;
+   the theorem's conclusion fails of the MODEL's own result (never, by C01_deserialize_sound) *)
+Definition dflags_of (c : dcase) : list bool :=
+  let m := dmodel c in
+  let decl := match m with Raise x => model_exn x | _ => false end in
+  let d := ddom c in
+  [ negb decl && negb (val_nonfinite (dc_doc c)) && negb (dres_equiv m (dc_obs c));
+    d; decl;
+    d && match m with Ok x => negb (inst_ok (tbl_match (dc_tbl c)) (dc_env c) x) | Raise _ => false end ].
